@@ -90,6 +90,10 @@ func (s *sess) refusalProblems(t *an.Trace, allowStateToNonLogged bool) []string
 			}
 		case "spawn":
 			probs = append(probs, "spawns a goroutine")
+		case "store":
+			if e.Name == "ResetSeqNum" || e.Name == "SetSeqNum" {
+				probs = append(probs, "resets or sets a sequence counter ("+e.Name+"): a refused message disturbs the numbering of the session")
+			}
 		case "clean":
 			probs = append(probs, "clears the event handlers")
 		case "panic":
@@ -304,7 +308,7 @@ func runC16(c *core.Ctx, o Options) {
 		s.checkMakeReject("J3")
 	}
 	// J4: what the rejects rely on — unparsable numeric fields make Unmarshal fail, and the raw lookup recognises tag 34 only at a field boundary
-	checkCodecs(c, "J4", map[string]bool{"frombytes": true})
+	checkCodecs(c, "J4", map[string]bool{"frombytes": true, "tobytes": true, "isnull": true})
 	// J2 premise: an administrative message reaches the handler of its type (which rejects it) whatever the all-types handlers returned
 	checkInboundDispatch(c, "J2")
 	for _, k := range adminKinds {
@@ -341,13 +345,21 @@ func runC16(c *core.Ctx, o Options) {
 		}
 		c.Check(bad == "" && nSet > 0, "J2", "WaitingTestReqAnswer", "the probe state is entered only from SuccessfulLogged", where, fmt.Sprintf("%d site(s)", nSet), bad)
 	}
+	// J1 (exactly one): the all-types handlers in front of the administrative handlers neither answer nor stop the dispatch
+	s.checkAllTypesHandlersPassive("J1")
 	// J5 (premise): "rejected" for a damaged message means the integrity check sees the damage — the rules of C03 (both checks
 	// guard acceptance, mirror arithmetic on the bytes as received, exact parsing of the declared values) hold
 	c.RulePrefix = "J5"
 	integrityRules(c)
 	c.RulePrefix = ""
+	// J6 (premise): "valid messages that follow are processed normally" — the damaged message ends where its CheckSum field starts,
+	// whatever that field's value looks like: the framing rules of the connection reader (C04.F1–F3) hold
+	c.RulePrefix = "J6"
+	framingRules(c, libFuncs(c))
+	c.RulePrefix = ""
+	c.Explanation += " J6 premise (= C04.F1–F3): the connection reader frames on a start-anchored \"10=\" segment and nothing else, so a damaged message does not swallow the valid one behind it. J4 also covers the formatters (the Reject's RefSeqNum is written by Int.ToBytes)."
 	c.Explanation += " J2 premise: every path that sets WaitingTestReqAnswer has read the state as SuccessfulLogged (the all-types handler takes any inbound message, damaged ones too, for the answer to the probe). J5 premise: the rules V1–V6 of C03 hold (a damaged message is rejected only if the integrity check sees the damage)."
-	c.RuleMin = map[string]int{"J1": 16, "J2": 5, "J3": 2, "J4": 14, "J5": 12}
+	c.RuleMin = map[string]int{"J1": 20, "J2": 5, "J3": 2, "J4": 14, "J5": 12, "J6": 8}
 	c.MinObl = 5*5 + 2
 }
 
@@ -549,21 +561,34 @@ func runC14(c *core.Ctx, o Options) {
 	} else {
 		c.Ob("Q5", "start", "all-types incoming handler restores the logged-on state", fn.Pos()).Fail("no all-types incoming handler is registered when the timers start: in WaitingTestReqAnswer a TestRequest would be rejected instead of answered")
 	}
+	// Q5 (premise): the restoring handler is reached — no earlier all-types handler stops the dispatch (other than on a store
+	// failure) or answers in the type handler's place
+	s.checkAllTypesHandlersPassive("Q5")
 	// Q3b: nothing between the handler and the outbound queue runs in another goroutine
 	checkSendChainNoSpawn(c, s, "Q3")
 	c.Extra["paths"] = len(traces)
 	// Q6: the reply that the session queued is taken off the queue by the connection's writer and written — not measured and dropped
 	checkNoMessageDropped(c, "Q6")
+	// Q6 also on the way in: the TestRequest read from the socket reaches the handler's queue — ServeIncoming never gives up
+	checkServeIncomingHandsOver(c, "Q6")
+	// Q8 (premise): a TestRequest that is valid is seen as valid — the integrity rules of C03 (the BodyLength region is measured on
+	// the bytes received, not on a re-rendered number)
+	c.RulePrefix = "Q8"
+	integrityRules(c)
+	c.RulePrefix = ""
 	c.Explanation += " Q6 (= C04.F7): the reply the session queued is taken off the queue by the connection's writer and written — no path receives a message from a byte-message channel and lets it go."
 	s.checkCallbacksOutsideStateLock("Q3")
 	// Q4 (premises): the end-of-message test of the connection reader is start-anchored (a TestReqID containing "10=" does not cut
 	// the message), and the value formatters emit a populated value as it is (a blank-only TestReqID is still echoed)
 	if rr := c.Func("", "Conn.runReader"); rr != nil {
-		needleCensus(c, "Q4", []*ssa.Function{rr})
+		needleCensus(c, "Q4", readerScope(c))
 	}
-	checkCodecs(c, "Q4", map[string]bool{"tobytes": true, "isnull": true})
-	c.Explanation += " Q3 also: event subscribers and the logon callback run with no session mutex held. Q4 premises: the reader's end-of-message test is start-anchored; value formatters emit a populated value as it is."
-	c.RuleMin = map[string]int{"Q0": 8, "Q1": 1, "Q2": 1, "Q3": 7, "Q4": 12, "Q5": 1, "Q6": 5}
+	checkCodecs(c, "Q4", map[string]bool{"tobytes": true, "isnull": true, "frombytes": true})
+	// Q7 (premise): the reply can be sent at all — no function of the library returns with a mutex it took still locked (the message
+	// store's mutex is taken by every send when it saves)
+	checkLocksReleased(c, "Q7", libFuncs(c), "the next send — the Heartbeat answering a TestRequest included — blocks for ever")
+	c.Explanation += " Q3 also: event subscribers and the logon callback run with no session mutex held. Q4 premises: the reader's end-of-message test is start-anchored; value formatters emit a populated value as it is and value parsers are the exact inverses (a TestRequest with a large MsgSeqNum still decodes). Q7 premise: no function of the library returns with a mutex it took still locked. Q6 also: ServeIncoming hands over with one blocking select {incoming <- msg; <-ctx.Done()}. Q8 premise: the integrity rules V1–V7 of C03. Q5 premise: the all-types handlers in front of the TestRequest handler neither stop the dispatch (except on a store failure) nor answer."
+	c.RuleMin = map[string]int{"Q0": 8, "Q1": 1, "Q2": 1, "Q3": 7, "Q4": 12, "Q5": 5, "Q6": 6, "Q8": 12, "Q7": 15}
 	c.MinObl = 7
 }
 
